@@ -297,6 +297,19 @@ CHECKS['C16']['text'] += " numericPromotion evaluated on all pairs (float before
 CHECKS['C17']['text'] += " The probability divisor is written by its accumulation only."
 CHECKS['C18']['text'] += " The per-shot presentation switches (echo, warn-at-exit) guard output only."
 
+CHECKS['C01']['text'] += " copysign/fabs in a gate's coefficients are evaluated symbolically."
+CHECKS['C02']['text'] += " The simulator draws from exactly one random engine; a register's recorded outcome has one character per element, in element order, from that element's own last measurement."
+CHECKS['C03']['text'] += " A sweep that stops short of the end of the state vector is reported."
+CHECKS['C04']['text'] += " Every write of the amplitude vector in reset belongs to one of the two recognised sweeps."
+CHECKS['C05']['text'] += " The evaluator's simulator is replaced whole only before anything of the run can have been logged (no call that reaches a simulator operation precedes it; program code cannot re-enter)."
+CHECKS['C07']['text'] += (" The operator table also decides by value: longs a double cannot hold (2^53+1 vs 2^53, 2^53+3) for + - % and the comparisons, and a zero right operand of / and % over all "
+                          "operand-kind pairs (runtime error) — whatever shape the cascade has.")
+CHECKS['C08']['text'] += " Each destructor body of the chain starts with the has-return flag cleared."
+CHECKS['C13']['text'] += " Local error-building closures are followed (throw sites, and subscripts by a closure parameter judged at every call of the closure)."
+CHECKS['C17']['text'] += " A builder that copies a base's instance fields copies its has-tracked-fields flag; per-shot counts are added under (variable, outcome) exactly."
+CHECKS['C19']['text'] += " The module key resolves the path through the file system (lexical only after an error); load() empties stack, cache and order before the first module."
+CHECKS['C20']['text'] += " The binary-mode marker is removed before the \"./\" prefix is looked for."
+
 NOT_YET = "check not yet built in this round (framework under construction; see DESIGN.md §4 for the planned static rules)"
 
 
